@@ -359,7 +359,7 @@ class ReadModifyWriteRequestPacket(SendUnitDataRequestPacket):
         self._request_ids = []
         self._and_mask = 0xFFFF_FFFF_FFFF_FFFF
         self._or_mask = 0x0000_0000_0000_0000
-        self._mask_size = DataTypes.get(self.data_type).size
+        self._mask_size = getattr(DataTypes.get(self.data_type), "size", None)
 
         if self._mask_size is None:
             raise RequestError(f'Invalid data type {tag_info["data_type"]} for writing bits')
